@@ -1171,6 +1171,7 @@ func c19Pump(c *core.Ctx, pkg *packages.Package) {
 		// order after the pumps: wg.Wait → udf.Close → <-forwardErr ; and no Abort
 		var wait, cls, res token.Pos
 		abort := false
+		var aborts []token.Pos
 		for _, st := range fn.Decl.Body.List {
 			ast.Inspect(st, func(n ast.Node) bool {
 				switch x := n.(type) {
@@ -1184,7 +1185,7 @@ func c19Pump(c *core.Ctx, pkg *packages.Package) {
 						case sel.Sel.Name == "Close" && strings.HasSuffix(types.ExprString(sel.X), ".udf"):
 							cls = x.Pos()
 						case sel.Sel.Name == "Abort" && strings.HasSuffix(types.ExprString(sel.X), ".udf"):
-							abort = true
+							aborts = append(aborts, x.Pos())
 						}
 					}
 				case *ast.UnaryExpr:
@@ -1198,6 +1199,13 @@ func c19Pump(c *core.Ctx, pkg *packages.Package) {
 				}
 				return true
 			})
+		}
+		// an Abort in front of the pumps (F105: the node was stopped while the UDF was being opened, nothing has been sent yet)
+		// is not on the path that follows the exhausted input
+		for _, a := range aborts {
+			if wait != token.NoPos && a > wait {
+				abort = true
+			}
 		}
 		c.Check(wait != token.NoPos && cls != token.NoPos && res != token.NoPos && wait < cls && cls < res && !abort, "C19.pump", "UDFNode.runUDF#finish", fn.Decl.Pos(), "when the input is exhausted the node must wait for its writer, Close the UDF (which lets it answer what it still holds) and only then take the forwarder's result; Abort on this path discards the UDF's remaining output (order ok %v, abort %v)", wait < cls && cls < res, abort)
 	}
